@@ -437,19 +437,19 @@ Fixpoint cpow (z : C) (n : nat) : C := match n with O => c1 | S n' => cmul z (cp
 Lemma peval_sum c z : peval c z =c= csumn (fun k => cmul (nthC c k) (cpow z k)) (length c).
 Proof.
   induction c as [|a c IH]; [reflexivity|].
-  cbn [peval length]. rewrite csumn_shift. unfold nthC at 1; cbn [nth cpow].
+  cbn [peval length]. rewrite cr_eq, csumn_shift. unfold nthC at 1; cbn [nth cpow].
   apply cadd_proper; [cring|].
   rewrite IH, <- csumn_mul_l. apply csumn_ext; intros k Hk. unfold nthC; cbn [nth cpow]. cring.
 Qed.
 
 Lemma peval_neg c z : peval (map cneg c) z =c= cneg (peval c z).
-Proof. induction c as [|a c IH]; simpl; [cring|]. rewrite IH. cring. Qed.
+Proof. induction c as [|a c IH]; simpl; [cring|]. rewrite !cr_eq, IH. cring. Qed.
 
 (* the denominator is 1 - sum_k a_k z^k (k = 1..p) *)
 Lemma ar_den_formula ak z :
   ar_den ak z =c= csub c1 (csumn (fun k => cmul (nthC ak k) (cpow z (S k))) (length ak)).
 Proof.
-  unfold ar_den. cbn [peval]. rewrite peval_neg, peval_sum.
+  unfold ar_den. cbn [peval]. rewrite cr_eq, peval_neg, peval_sum.
   transitivity (csub c1 (cmul z (csumn (fun k => cmul (nthC ak k) (cpow z k)) (length ak)))); [cring|].
   apply csub_proper; [reflexivity|]. rewrite <- csumn_mul_l. apply csumn_ext; intros k Hk. cbn [cpow]. cring.
 Qed.
@@ -459,8 +459,8 @@ Theorem AR_psd_formula s sigma ak onesided z :
   AR_psd_pt s ak onesided z == (if onesided then 2 else 1) * (sigma / cnorm2 (ar_den ak z)).
 Proof.
   intros Hs Hd. unfold AR_psd_pt. destruct (ar_den ak z) as [x y].
-  assert (E : re (cmul (cdiv (ofQ s) (x, y)) (cconj (cdiv (ofQ s) (x, y)))) == sigma / cnorm2 (x, y)).
-  { rewrite <- Hs. unfold cdiv, cinv, cmul, cconj, ofQ, cnorm2, re, im in *; simpl in *. field. exact Hd. }
+  assert (E : Qred (re (cmul (cr (cdiv (ofQ s) (x, y))) (cconj (cr (cdiv (ofQ s) (x, y)))))) == sigma / cnorm2 (x, y)).
+  { rewrite Qred_correct, cr_eq, <- Hs. unfold cdiv, cinv, cmul, cconj, ofQ, cnorm2, re, im in *; simpl in *. field. exact Hd. }
   destruct onesided; rewrite E; ring.
 Qed.
 
